@@ -91,6 +91,7 @@ def enumerate_cases(tier: str):
             for senders in ([[0, True]], [[1, True]], [[1, True], [2, True]], [[2, True], [1, True]], [[0, True], [1, True], [2, True]]):
                 yield {"version": version, "parked": 2, "other_parked": 1, "senders": senders, "keys": "types"}
                 yield {"version": version, "parked": 2, "other_parked": 0, "senders": senders, "listener": "persistent"}
+                yield {"version": version, "parked": 2, "other_parked": 0, "senders": senders, "debug_log": True}
             for senders in ([[0, True, "reuse"]], [[1, True, "reuse"]], [[0, True, "reuse"], [1, True]], [[3, True, "reuse"]]):
                 yield {"version": version, "parked": 2, "other_parked": 0, "senders": senders, "prior": True}
             for senders in ([[0, True, "ack"]], [[1, True, "ack"]], [[1, True, "ack"], [0, True]], [[1, True], [1, True, "ack"]], [[2, True, "ack"], [1, False, "ack"]]):
@@ -122,6 +123,7 @@ def strategy(tier: str):
             "represented": st.booleans(),
             "reported": st.booleans(),
             "keys": st.sampled_from(("plain", "collide", "types")),
+            "debug_log": st.sampled_from((False, False, True)),
             "listener": st.sampled_from(("fresh", "persistent")),
             "prior": st.booleans(),
         }
@@ -204,7 +206,7 @@ async def _run_schedule(case: dict, schedule: list[int]) -> tuple[Outcome | None
 
     prior_msgs: dict = {}
 
-    async def do_send(key, value, buffer, ack: int = 0, message=None) -> tuple[str, object]:
+    async def do_send(key, value, buffer, ack: int = 0, message=None, keep: bool = False) -> tuple[str, object]:
         if value is None:
             req_lines.append(f"{key[0]};{key[1]};2;0;{key[2]};\n")
             return await env.send(gateway, env.mk_message([key[0], key[1], 2, 0, key[2], ""]), buffer)
@@ -213,8 +215,10 @@ async def _run_schedule(case: dict, schedule: list[int]) -> tuple[Outcome | None
         calls_before = len(transport.calls)
         if message is None:
             message = env.mk_message([key[0], key[1], 1, ack, key[2], value])
-        rec["message"] = message
+        if keep:
+            rec["message"] = message  # (only the constant command objects of "reuse" senders are kept alive by the application)
         result = await env.send(gateway, message, buffer)
+        del message
         rec["comp"] = transport.tick()
         # parked = the call returned without handing this line to the transport
         rec["parked"] = not any(line.rstrip("\n").split(";", 5)[5] == value and _key_of(line) == key for _t, line in transport.calls[calls_before:])
@@ -225,8 +229,8 @@ async def _run_schedule(case: dict, schedule: list[int]) -> tuple[Outcome | None
         # earlier, quiet wake cycles already delivered the very values the racing senders will send again
         for idx, sender in enumerate(case["senders"]):
             if sender[0] != "other" and sender[1] and not (len(sender) > 2 and sender[2] in ("dup", "req")):  # (buffered senders only: a written value must be attributable)
-                await do_send(NODE1_KEYS[sender[0]], f"s{idx}", True)
-                prior_msgs[idx] = sends[-1]["message"]
+                await do_send(NODE1_KEYS[sender[0]], f"s{idx}", True, keep=len(sender) > 2 and sender[2] == "reuse")
+                prior_msgs[idx] = sends[-1].get("message")
         await receive(f"1;255;3;0;{wake_type};5\n")
         if any(rec["parked"] for rec in sends) and not transport.calls:
             return Outcome(ok=True, classes=("diverged-elsewhere",)), [], {}
@@ -401,6 +405,11 @@ def _explore(case: dict) -> tuple[Outcome | None, int, bool, bool]:
 
 
 def run_case(case: dict) -> Outcome:
+    with env.debug_logging(bool(case.get("debug_log"))):  # the library logging at DEBUG, as under the bundled CLI
+        return _run_case(case)
+
+
+def _run_case(case: dict) -> Outcome:
     if "schedule" in case:
         bad, _factors, info = env.run(_run_schedule(case, list(case["schedule"])))
         if bad is not None:
